@@ -896,3 +896,10 @@ func finalUses(v ssa.Value) []ssa.Instruction {
 	}
 	return out
 }
+
+func constStrObj(c *Ctx, pkg, name string) string {
+	if k, ok := c.Obj(pkg, name).(*types.Const); ok {
+		return constStringVal(k)
+	}
+	return ""
+}
